@@ -430,8 +430,8 @@ class Ref:
 
     def _along(self, X):
         dims = pd.DataFrame()
-        dims[0] = [pd.Series(_H_frames) for inst in range(
-            _AS("x2", from_nested_to_2d_array(X, return_numpy=True)).shape[0])]
+        dims[0] = [pd.Series(_H_frames) for inst in _AS(
+            "x2", from_nested_to_2d_array(X, return_numpy=True))]
         return dims
 
     def _check_parameters(self, num_atts):
@@ -454,8 +454,7 @@ def _paa(repo, d):
     d.addz("gen_paa_reject_low", "m na", "bool", zcmp(h["low"], env))
     d.addz("gen_paa_reject_high", "m na", "bool", zcmp(h["high"], env))
 
-    x2, inst = h["x2"], abv(m, rev, "inst")
-    series = E(aev, "x2[i, :]", x2=x2, i=inst)
+    x2, series = h["x2"], abv(m, rev, "inst")        # one series = one row of the 2-d array
     na = E(aev, "x2.shape[1]", x2=x2)
     fr = h["frames"]
     # result = frames + [tail] if counter == m - 1 else frames : identifies the roles
@@ -477,8 +476,13 @@ def _paa(repo, d):
     init = fold[3]
     _need(init[kf] == ("l", ()) and init[kc] == C(0) and init[ks] == C(0) and init[kz] == C(0),
           "initial state: no frames, zero counter / size / sum", init)
-    _need(canon(fold[2]) == canon(E(aev, "range(n)", n=na)), "the loop runs over every time point",
-          fold[2])
+    # the loop visits every time point of the series: by value, or by index 0..num_atts-1
+    if fold[2] == series:
+        value = ("bv", bid)
+    else:
+        _need(canon(fold[2]) == canon(E(aev, "range(n)", n=na)),
+              "the loop runs over every time point", fold[2])
+        value = ("i", series, ("bv", bid))
     # frame length: the one sub-term of the tail that is not loop state
     fl = E(aev, "n / self.num_intervals", n=na)
     _need(has(tail, lambda x: is_term(x) and canon(x) == canon(fl)),
@@ -490,7 +494,7 @@ def _paa(repo, d):
     d.q.append("Definition gen_paa_tail (s L : Q) : Q := %s.\n"
                % qexpr(tail, {canon(nums[0]): "s", canon(fl): "L"}))
     qenv = {canon(("st", fid, kz)): "(sz st)", canon(("st", fid, ks)): "(sm st)",
-            canon(fl): "L", canon(("i", series, ("bv", bid))): "x"}
+            canon(fl): "L", canon(value): "x"}
     lenv = {canon(("st", fid, kf)): "(fr st)", "@q": qenv}
     nenv = {canon(("st", fid, kc)): "(cur st)", "@q": qenv}
     outs = fold[4]
@@ -508,7 +512,7 @@ def _paa(repo, d):
 
 def _rife(repo, d):
     mod = _load(repo, "sktime/transformations/panel/summarize/_extract.py")
-    ev = Ev(mod, "RandomIntervalFeatureExtractor", opaque=("_check_features",))
+    ev = Ev(mod, "RandomIntervalFeatureExtractor")
     fn = ev.methods.get("transform")
     _need(fn is not None, "RandomIntervalFeatureExtractor.transform is missing")
     body = [s for s in fn.body if not (isinstance(s, ast.Expr) and isinstance(s.value, ast.Constant))]
@@ -523,11 +527,12 @@ def _rife(repo, d):
         tree = tree[3] if tree[2][0] == "raise" else tree[2]
     _need(tree[0] == "fall", "prefix of the loop nest falls through")
     env = tree[1]
-    _need(len(ev.raises) == 1 and ev.raises[0][1] == "ValueError",
-          "one shape guard before the loops")
+    _need(any(e == "ValueError" and any(
+        has(a, lambda x: x == ("a", SELF, "input_shape_")) for a, _ in pth)
+        for pth, e in ev.raises), "the shape guard before the loops")
     X = E(ev, "check_X(X, enforce_univariate=True, coerce_to_numpy=True)", X=("s", "X"))
-    feats = E(ev, "_check_features(self.features)")
     ivs = attr("intervals_")
+    feats = None
     outer = body[loops[0]]
     _need(len(outer.body) == 1 and isinstance(outer.body[0], ast.For) and not outer.orelse
           and not outer.body[0].orelse, "two nested loops")
@@ -536,8 +541,12 @@ def _rife(repo, d):
     lenv = dict(env)
     for lp in (outer, inner):
         it = ev.expr(lp.iter, env)
-        if canon(it) == canon(feats):
-            _need(isinstance(lp.target, ast.Name), "for <func> in features")
+        if canon(it) != canon(ivs) and isinstance(lp.target, ast.Name) and feats is None:
+            # the other loop: its variable is the feature function applied to the interval
+            # (checked below: `func(interval, axis=-1)`), whatever validated list it runs over
+            _need(has(it, lambda x: x == ("a", SELF, "features")),
+                  "the feature loop runs over (the validated) self.features", it)
+            feats = it
             kinds[lp] = "F"
             lenv[lp.target.id] = ("s", "@func")
         elif canon(it) == canon(ivs):
@@ -667,12 +676,27 @@ class Ref:
         else:
             raise ValueError("")
         return Z.fillna(method="ffill").fillna(method="backfill")
+
+    def _check_method(self):
+        if (self.value is not None and self.method != "constant"
+                or self.method == "constant" and self.value is None):
+            raise ValueError("")
+        elif (self.forecaster is not None and self.method != "forecaster"
+                or self.method == "forecaster" and self.forecaster is None):
+            raise ValueError("")
+
+    def _get_random(self, Z):
+        rng = check_random_state(self.random_state)
+        if (Z.dropna() % 1 == 0).all():
+            return rng.randint(Z.min(), Z.max())
+        else:
+            return rng.uniform(Z.min(), Z.max())
 '''
 
 
 def _impute(repo, d):
     m, rev, aev = site(repo, "sktime/transformations/series/impute.py", "Imputer", IMPUTE_REF,
-                       ["transform"], opaque=("_check_method", "_get_random"))
+                       ["transform"])
     h = m.holes
     zin = E(aev, "z.replace(to_replace=self.missing_values, value=np.nan) "
                  "if self.missing_values else z", z=E(aev, "check_series(Z)", Z=("s", "Z")))
